@@ -185,16 +185,20 @@ def run(ctx):
     if f:
         T = tpl.Templates(f)
         body = None
-        for s in T.by_stream:
-            if "match * __body" in T.text(s):
-                body = T.text(s)
+        # the generator and the private helpers it may have been cut into
+        group = [(g_, tpl.Templates(g_)) for g_ in ctx.generator_group(f)]
+        T0 = T
+        for g_, Tg in group:
+            for s in Tg.by_stream:
+                txt_ = Tg.text(s)
+                if "match * __body" in txt_ and "DataShape⟩" in txt_ and Tg.by_stream[s][0].kind != "append" and (body is None or len(txt_) < len(body)):
+                    body, T0, sets_stream = txt_, Tg, s
         ctx.ob("C18.H.validator-template", f.key, "match *__body { Enum, Struct, Union }", body is not None, "template found")
         if body:
             # generated locals are compared up to renaming; which set is bound to which local comes
             # from the interpolated expressions, in order
             body = tpl.alpha(body)
-            sets_stream = [s for s in T.by_stream if "match * __body" in T.text(s)][0]
-            exprs = [(tk.expr or "") for tk in T.by_stream[sets_stream] if tk.kind == "interp" and tk.ty and "DataShape" in tk.ty]
+            exprs = [(tk.expr or "") for tk in T0.stream_tokens(sets_stream, locals_too=True) if tk.kind == "interp" and tk.ty and "DataShape" in tk.ty]
             V = r"(\$\d+)"
             mb = re.search(r"let %s = ⟨darling_core::options::shape::DataShape⟩ ; let %s = ⟨darling_core::options::shape::DataShape⟩ ;" % (V, V), body)
             which = dict(zip(mb.groups(), exprs)) if mb and len(exprs) == 2 else {}
@@ -216,10 +220,10 @@ def run(ctx):
             ok = bool(un) and ("Err" in un.group(1)) and "unreachable" not in un.group(1)
             ctx.ob("C18.H.union-is-error-not-crash", f.key, "syn::Data::Union arm", ok, "F5: the union arm of the generated validator is `%s` – a union satisfies no word but must be an error, never a crash" % (un.group(1) if un else "?"))
         # wiring: #st = self.struct_values, #en = self.enum_values; any → Ok(())
-        wired = sorted((tk.expr or "") for tk in T.events if tk.kind == "interp" and tk.ty and "DataShape" in tk.ty)
+        wired = sorted((tk.expr or "") for g_, Tg in group for tk in Tg.events if tk.kind == "interp" and tk.ty and "DataShape" in tk.ty)
         ctx.ob("C18.wire.check-sets", f.key, "interpolated sets", wired == ["self.enum_values", "self.struct_values"], "%s" % wired)
         for s in T.by_stream:
-            if T.text(s) == ":: darling :: export :: Ok ( ( ) )":
+            if T.text(s) == ":: darling :: export :: Ok ( ( ) )" and any(tk.kind == "ident" and tk.text == "Ok" for tk in T.by_stream[s]):
                 ctx.requires("C18.G.any-accepts-everything", f, T.by_stream[s][0].blk, "Ok(()) body", [r"^self\.any=True$"])
     # ---------------------------------------------------------------- [B] derived validators
     pop = [b for b in derived.population(ctx) if b.key.endswith("::__validate_body")]
